@@ -29,7 +29,9 @@ UCore == <<
   Flt(0 - 1, 2), Flt(0, 1), Flt(1, 1), Flt(3, 2), Flt(5, 2),
   S(<<>>), S(<<97>>), S(<<97, 98>>), S(<<98>>), S(<<66>>), S(<<49>>),
   Arr(<<>>), Arr(<<IntV(1)>>), Arr(<<IntV(1), IntV(2)>>), Arr(<<Flt(1, 1)>>), Arr(<<S(<<97>>)>>), Arr(<<Nil>>),
-  M(<<>>), M(<< <<<<97>>, IntV(1)>> >>), M(<< <<<<97>>, IntV(2)>> >>), M(<< <<<<97>>, IntV(1)>>, <<<<98>>, IntV(2)>> >>)
+  M(<<>>), M(<< <<<<97>>, IntV(1)>> >>), M(<< <<<<97>>, IntV(2)>> >>), M(<< <<<<97>>, IntV(1)>>, <<<<98>>, IntV(2)>> >>),
+  \* rows and records whose numbers are integers here and the equal floats there (what a JSON decoder makes of them)
+  Arr(<<Arr(<<IntV(1), IntV(2)>>)>>), Arr(<<Arr(<<Flt(1, 1), Flt(2, 1)>>)>>), Arr(<<M(<< <<<<97>>, IntV(1)>> >>)>>), Arr(<<M(<< <<<<97>>, Flt(1, 1)>> >>)>>)
 >>
 UMore == <<
   IntV(100), IntV(0 - 100), Flt(201, 2), Flt(1, 4), Flt(0 - 5, 2), IntV(100000000), IntV(0 - 100000000),
@@ -148,6 +150,14 @@ EmitCase ==
   /\ (a.k \in {"arr", "map"} /\ b.k \in {"arr", "map"}) =>
        PrintT(ToJson([id |-> "shr-" \o ToString(i) \o "-" \o ToString(j), kind |-> "render", tm |-> "TraceC09",
                       a |-> a, b |-> b, prog |-> Prog, env |-> << <<A, a>>, <<B, b>> >>, repr |-> ("@share" :> "1")]))
+  \* both operands as slices of one typed element type ([][]any, []map[string]any): equality still goes element by
+  \* element, numbers by value
+  /\ (a.k = "arr" /\ b.k = "arr" /\ a.v # <<>> /\ b.v # <<>> /\ (\A n \in 1..Len(a.v) : a.v[n].k = "arr") /\ (\A n \in 1..Len(b.v) : b.v[n].k = "arr")) =>
+       PrintT(ToJson([id |-> "tys-" \o ToString(i) \o "-" \o ToString(j), kind |-> "render", tm |-> "TraceC09",
+                      a |-> a, b |-> b, prog |-> Prog, env |-> << <<A, a>>, <<B, b>> >>, repr |-> ("a" :> "anyslices") @@ ("b" :> "anyslices")]))
+  /\ (a.k = "arr" /\ b.k = "arr" /\ a.v # <<>> /\ b.v # <<>> /\ (\A n \in 1..Len(a.v) : a.v[n].k = "map") /\ (\A n \in 1..Len(b.v) : b.v[n].k = "map")) =>
+       PrintT(ToJson([id |-> "tym-" \o ToString(i) \o "-" \o ToString(j), kind |-> "render", tm |-> "TraceC09",
+                      a |-> a, b |-> b, prog |-> Prog, env |-> << <<A, a>>, <<B, b>> >>, repr |-> ("a" :> "maps") @@ ("b" :> "maps")]))
   /\ PrintT(ToJson([id |-> "cmp-" \o ToString(i) \o "-" \o ToString(j), kind |-> "render", tm |-> "TraceC09",
                     a |-> a, b |-> b, prog |-> Prog, env |-> << <<A, a>>, <<B, b>> >>]))
   /\ PrintT(ToJson([id |-> "obj-" \o ToString(i) \o "-" \o ToString(j), kind |-> "render", tm |-> "TraceRender",
